@@ -455,14 +455,16 @@ def gen_cases(ctx):
   yield from counted(rand_r(400 if quick else 8000), 'reserved-names')
 
   def self_mixed_select(specs):
-    """select((.., Key.SELF, ..)) with another key and no output_keys: the RESERVED key SELF among several default OUTPUT
-    keys.  Not this arm's class (nothing is spelled like a reserved key) and a separate observation reported by SC18:
-    the builder accepts it, `_normalize_outputs` wraps the outputs when SELF comes first (ValueError from zip() for every
-    record), and a following batch() takes `tuple(self.output_keys)` in SET order, so whether SELF comes first depends
-    on the process's str hashing.  The plain wild arm draws this class with the probability it always had."""
+    """Key.SELF among SEVERAL output keys of a select (explicit, or the input keys by default) or an apply.  Not this
+    arm's class (nothing is spelled like a reserved key) and a separate observation reported by SC18: the builder checks
+    'SELF mixed with other keys' for assign only; when SELF comes first `_normalize_outputs` wraps the outputs
+    (ValueError from zip() for every record; the reference interpreter gives SELF the first output), and a following
+    batch() takes `tuple(self.output_keys)` in SET order, so whether SELF comes first depends on the process's str
+    hashing.  The plain wild arm draws this class with the probability it always had."""
     for sp in specs:
-      if sp['op'] == 'select' and not sp.get('out'):
-        ks = sp['in'].get('many') or [k for _, k in sp['in'].get('kw', [])]
+      if sp['op'] in ('select', 'apply'):
+        spec = sp.get('out') or (sp['in'] if sp['op'] == 'select' else {})
+        ks = spec.get('many') or [k for _, k in spec.get('kw', [])]
         if len(ks) > 1 and any('self' in k for k in ks):
           return True
     return False
